@@ -58,6 +58,8 @@ def gen_table_op(which):
             for c in conns:
                 for e in (EVENTS + ['x'] if which != 'reset_connection' else [None]):
                     _setup(d, table, active, conns)
+                    if rng.random() < 0.4:
+                        d._connections = [c]          # the only registered connection
                     args = {'conn': c} if e is None else {'conn': c, 'eventname': e}
                     yield dict(label=f'{table!r} active={active!r} {which}({c},{e!r})', self=d, args=args, ghosts={'sent': sent})
     return gen
